@@ -1,4 +1,5 @@
 """C03 - a dead or stale handle can never read or change a live entity's components."""
+import re
 from ..core import base_ty, rv_const_bool, strip_ref
 from ..summaries import ENTITY, AliveClass, IndexSinks, entity_of_index
 
@@ -9,8 +10,9 @@ EXPLANATION = (
     "method; indices parked in item-struct fields make the constructor a sink). R1: at EVERY call site in every body "
     "(functions and closures, every feature configuration) where a sink argument is the index of an entity handle x "
     "(Entity::id(x) or a read of x.0), the site must be unreachable once the true-edge of every `is_alive`-class test "
-    "of the same x is deleted from the CFG. R2: in those bodies and in Storage::contains every construction of a "
-    "positive result (Some/Ok/true) is guarded the same way. The is_alive class is closed under wrappers by a summary. "
+    "of the same x is deleted from the CFG. R2: in those bodies and in every membership query keyed by a handle (role: one "
+    "Entity parameter, asks a bit set contains(index of that handle), answers bool / Option - Storage::contains today) every "
+    "construction of a positive result (Some/Ok/true) is guarded the same way. The is_alive class is closed under wrappers by a summary. "
     "Hard anchors: the ten public handle-taking access paths named by the property must each carry a guarded site."
 )
 NOT_DECIDED = ("that Allocator::is_alive itself computes the right answer (C02); behaviour of user-supplied storages; "
@@ -151,6 +153,38 @@ def run_config(ctx, facts, R1="C03-R1", R2="C03-R2", only=None, anchors=None, si
             kind, bb, idx, dp, payload, _ = d
             positive = None
             if kind == "call":
+                cname = payload["callee"].get("path", "")
+                if b.ltype.get(0) == "bool" and re.search(r"(option::Option|result::Result)::<[^>]*>::is_(some|ok)$", cname) and payload["args"]:
+                    # `checked_lookup(e).is_some()`: true exactly when the tested value is Some / Ok - so every construction of such a value
+                    # that can reach the test must be guarded (a value that comes from a checked access path is that path's business)
+                    comps = [b.arg_origin(bb, 0)]
+                    flat = []
+                    while comps:
+                        o = comps.pop()
+                        if o[0] == "phi":
+                            comps.extend(o[2])
+                        else:
+                            flat.append(o)
+                    bad_src = None
+                    for o in flat:
+                        if o[0] == "agg":
+                            rv2 = b.blocks[o[1]]["stmts"][o[2]]["rv"]
+                            if rv2.get("variant") in ("Some", "Ok") and not alive.guarded(b, o[1], x)[0]:
+                                bad_src = "%s built at %s" % (rv2.get("variant"), b.loc(o[1], rv2.get("line")))
+                        elif o[0] == "call":
+                            tb = facts.targets(b.term(o[1])["callee"])
+                            if not (alive.guarded(b, o[1], x)[0] or any(t_.path in guarded_bodies for t_ in tb)):
+                                bad_src = "result of %s" % b.term(o[1])["callee"].get("path", "?")
+                        elif o[0] != "const":
+                            bad_src = repr(o[:2])
+                    if bad_src:
+                        key = "%s returns is_some/is_ok of an unguarded value #%d" % (b.path, n)
+                        n += 1
+                        ctx.ob(R2, key, False, b.loc(line=payload["line"]), "the tested Option/Result can be Some/Ok without is_alive(%s): %s" % (fmt_org(b, x), bad_src))
+                    else:
+                        ctx.ob(R2, "%s returns is_some/is_ok of a guarded value #%d" % (b.path, n), True, b.loc(line=payload["line"]))
+                        n += 1
+                    continue
                 if b.ltype.get(0) == "bool" and not alive.is_member_call(b, bb, x):
                     positive = "bool result of " + payload["callee"].get("path", "?")
                 line = payload["line"]
